@@ -245,9 +245,9 @@ class Oracle:
                         continue
                     exact = self.kind == 'infinite' and not case['interp']
                     if (e != 0.0) if exact else (e > TOL * scale):
-                        self.fail('translate-whole-pixel %s' % where,
-                                  'screen at t=%r is not the screen at t=%r moved by (%d, %d) px = velocity*dt (max dev %.3g of %.3g)' % (
-                                      clock, t0, int(px), int(py), e, scale))
+                        self.fail('translate-whole-pixel',
+                                  '%s: screen at t=%r is not the screen at t=%r moved by (%d, %d) px = velocity*dt (max dev %.3g of %.3g)' % (
+                                      where, clock, t0, int(px), int(py), e, scale))
                     self.cnt('translation whole-pixel checked')
                 elif self.kind == 'infinite' and not case['interp']:
                     # no interpolation: the screen sits on the nearest pixel, so it moved by whole pixels within
@@ -260,7 +260,7 @@ class Oracle:
                         self.cnt('translation: no overlap')
                         continue
                     if not any(e == 0.0 for e in errs if e is not None):
-                        self.fail('translate-nearest-pixel %s' % where,
+                        self.fail('translate-nearest-pixel',
                                   'screen at t=%r is no whole-pixel translate of the screen at t=%r within one pixel of velocity*dt = (%.3g, %.3g) px' % (
                                       clock, t0, px, py))
                     self.cnt('translation nearest-pixel checked')
@@ -274,7 +274,7 @@ class Oracle:
                 ref = np.array(L2.phase_for(1).shaped, dtype=float)
                 e = float(np.abs(ref - s1).max())
                 if e > TOL * scale:
-                    self.fail('translate-any %s' % where,
+                    self.fail('translate-any',
                               'screen at t=%r differs from the t=0 screen evaluated at x - velocity*t, displacement (%.4g, %.4g) px (max dev %.3g of %.3g)' % (
                                   clock, cx / dx, cy / dy, e, scale))
                 self.cnt('translation vs displaced grid checked')
@@ -293,7 +293,7 @@ class Oracle:
         ep, em = float(np.sqrt(np.mean((inner - plus) ** 2))), float(np.sqrt(np.mean((inner - minus) ** 2)))
         self.cnt('translation sub-pixel direction checked')
         if not ep < em:
-            self.fail('translate-subpixel-direction %s' % where,
+            self.fail('translate-subpixel-direction',
                       'interpolated screen at t=%r is closer to the t=%r screen moved by -velocity*dt than by +velocity*dt (%.3g vs %.3g)' % (
                           clock, t0, em, ep))
 
@@ -424,15 +424,15 @@ def judge_noise(case):
             if e is not None:
                 counts['noise whole-pixel checked'] = 1
                 if e > TOL * scale:
-                    bad.append(('noise-translate-whole-pixel %s' % where,
-                                '%s noise shifted by (%d, %d) px is not the index translate on the overlap (max dev %.3g of %.3g)' % (case['cls'], px, py, e, scale)))
+                    bad.append(('noise-translate-whole-pixel',
+                                '%s noise (%s) shifted by (%d, %d) px is not the index translate on the overlap (max dev %.3g of %.3g)' % (case['cls'], where, px, py, e, scale)))
         _, _, ref_noise = noise_objects(case, grid=g.shifted(-s))
         ref = np.array(ref_noise().shaped, dtype=float)
         e = float(np.abs(ref - moved).max())
         counts['noise vs displaced grid checked'] = 1
         if e > TOL * scale:
-            bad.append(('noise-translate-any %s' % where,
-                        '%s noise shifted by (%.4g, %.4g) px differs from the same noise evaluated at x - s (max dev %.3g of %.3g)' % (case['cls'], px, py, e, scale)))
+            bad.append(('noise-translate-any',
+                        '%s noise (%s) shifted by (%.4g, %.4g) px differs from the same noise evaluated at x - s (max dev %.3g of %.3g)' % (case['cls'], where, px, py, e, scale)))
         # observation for the correspondence: the factor applied to every coefficient
         if case['cls'] == 'fft':
             parts = [(noise.C, sh.C, noise.coords)]
